@@ -343,6 +343,9 @@ def points(run):
         except Exception as e:
             viol(name, o0, "raised:spherical_coords", err(e))
             return
+        if sc.shape != np.asarray(Sh[idxs]).reshape(-1, 3).shape:
+            viol(name, o0, "projective_to_spherical.shape", dict(got=list(sc.shape), spec=list(np.asarray(Sh[idxs]).reshape(-1, 3).shape)))
+            return
         dev = np.linalg.norm(sc - Sh[idxs], axis=1)
         for j in np.nonzero(~(dev <= TOL_PT))[0][:5]:
             viol(name, hom[idxs[j]], "projective_to_spherical", dict(got=sc[j].tolist(), spec=Sh[idxs[j]].tolist()))
